@@ -14,6 +14,7 @@
                   scale: needs |beta2| and the ordered extremes); the analytic NLI is a sum of non-negative terms;
                  every per-pump contribution to the spontaneous Raman ASE is gated by pump frequency > channel frequency,
                  under which the phonon factor E/(E-1) and the Raman coefficient are non-negative (R3.raman-ase).
+ Rm memo          : every memoisation construct in the functions behind this property is keyed by everything it reads.
 """
 import ast
 
@@ -299,4 +300,9 @@ def r3b_raman_ase(ctx):
     ctx.need('R3.raman-ase', 2)
 
 
-RULES = [('R3.raman-ase', r3b_raman_ase), ('R1.effects', r1_effects), ('R2.identities', r2_identities), ('R3.sign', r3_sign)]
+
+from ..memo import rule_for as _memo_rule
+
+RULES_MEMO = ('Rm.memo', _memo_rule('C02', 'an element would apply noise computed for another spectrum or configuration'))
+
+RULES = [('R3.raman-ase', r3b_raman_ase), ('R1.effects', r1_effects), ('R2.identities', r2_identities), ('R3.sign', r3_sign), RULES_MEMO]
